@@ -10,4 +10,4 @@ class Oracle:
         ORACLES[qualname] = self
 
 
-from . import kernels, alignments, continuum_history, samplers, dissims, disorders, gammacat, purity, schedules, gammas, invariance, cli, fileio, cst, fast  # noqa: E402,F401
+from . import kernels, alignments, continuum_history, samplers, dissims, disorders, gammacat, purity, schedules, gammas, invariance, cli, fileio, cst, fast, validity  # noqa: E402,F401
